@@ -51,6 +51,56 @@ def _layout(x: torch.Tensor, layout: str) -> torch.Tensor:
     raise ValueError(layout)
 
 
+class _SubArray(np.ndarray):
+    """a plain ndarray subclass (no behaviour changed)"""
+
+
+NP_LAYOUTS = ["plain", "neg_first", "neg_last", "neg_all", "fortran", "byteswapped", "readonly", "strided", "sliced", "subclass"]
+
+
+def _np_layout(a: np.ndarray, layout: str) -> np.ndarray:
+    """the same logical array (same shape, values, dtype up to byte order) in another numpy memory layout"""
+    if layout == "plain" or a.ndim == 0:
+        return a
+    if layout == "neg_first":
+        return np.ascontiguousarray(a[::-1])[::-1]
+    if layout == "neg_last":
+        return np.ascontiguousarray(a[..., ::-1])[..., ::-1]
+    if layout == "neg_all":
+        idx = tuple(slice(None, None, -1) for _ in range(a.ndim))
+        return np.ascontiguousarray(a[idx])[idx]
+    if layout == "fortran":
+        return np.asfortranarray(a)
+    if layout == "byteswapped":
+        return a.astype(a.dtype.newbyteorder()) if a.dtype.itemsize > 1 else a
+    if layout == "readonly":
+        b = a.copy()
+        b.setflags(write=False)
+        return b
+    if layout == "strided":
+        big = np.zeros(list(a.shape[:-1]) + [2 * a.shape[-1]], dtype=a.dtype)
+        big[..., ::2] = a
+        return big[..., ::2]
+    if layout == "sliced":
+        big = np.zeros([d + 2 for d in a.shape], dtype=a.dtype)
+        idx = tuple(slice(1, 1 + d) for d in a.shape)
+        big[idx] = a
+        return big[idx]
+    if layout == "subclass":
+        return a.view(_SubArray)
+    raise ValueError(layout)
+
+
+NP_ONLY_DTYPES = {"uint16": np.uint16, "uint32": np.uint32, "longdouble": np.longdouble}   # no (full) torch counterpart
+
+
+def _np_labels(shape, dtype):
+    if dtype in NP_ONLY_DTYPES:
+        n = int(np.prod(shape)) if len(shape) else 1
+        return (np.arange(1, n + 1).reshape(shape)).astype(NP_ONLY_DTYPES[dtype])
+    return _labels(shape, dtype).numpy()
+
+
 def _window_ref(x: np.ndarray, starts, sizes, fill):
     """pointwise reference: out[i] = x[start + i] where in range, else fill"""
     out = np.full(sizes, fill, dtype=x.dtype)
@@ -148,42 +198,60 @@ def run_case(c: dict):
         return out
 
     if fn == "crop_to_bbox":
-        x0 = _labels(c["shape"], c.get("dtype", "float32"))
         bbox, fill = c["bbox"], c.get("fill", 0)
         nd = len(bbox) // 2
-        xin = _layout(x0, c.get("layout", "contiguous"))
-        data = xin.numpy() if c.get("path") == "numpy" else xin
-        if c.get("path") == "numpy" and c.get("layout") == "transposed" and x0.ndim >= 2:
-            data = np.asfortranarray(x0.numpy())
+        if c.get("path") == "numpy":
+            x0n = _np_labels(c["shape"], c.get("dtype", "float32"))
+            lay = c.get("np_layout") or {"contiguous": "plain", "transposed": "fortran"}.get(c.get("layout", "contiguous"),
+                                                                                              c.get("layout", "contiguous"))
+            data = _np_layout(x0n, lay)
+            xin = None
+        else:
+            x0 = _labels(c["shape"], c.get("dtype", "float32"))
+            x0n = x0.numpy()
+            lay = c.get("layout", "contiguous")
+            xin = _layout(x0, lay)
+            data = xin
+        keep_np = np.array(data, copy=True) if isinstance(data, np.ndarray) else None
         try:
             got = crop_to_bbox(data, _target_form(bbox, c.get("form", "list")), pad_value=fill)
         except (ValueError, TypeError, RuntimeError, IndexError) as e:
-            bad("prim/crop_to_bbox/raises", f"crop_to_bbox ({c.get('path', 'torch')} path, {c.get('dtype', 'float32')}) raises "
+            bad("prim/crop_to_bbox/raises", f"crop_to_bbox ({c.get('path', 'torch')} path, {c.get('dtype', 'float32')}, layout {lay}) raises "
                 f"{err_name(e)}", observed=repr(e)[:200])
             return out
-        if c.get("path") == "numpy" and not isinstance(got, np.ndarray) or c.get("path") != "numpy" and not isinstance(got, torch.Tensor):
+        is_np = isinstance(got, (np.ndarray, np.generic))
+        if c.get("path") == "numpy" and not is_np or c.get("path") != "numpy" and not isinstance(got, torch.Tensor):
             bad("prim/crop_to_bbox/type", f"crop_to_bbox returns {type(got).__name__} for a {c.get('path', 'torch')} input")
             return out
-        ref = _window_ref(x0.numpy(), bbox[:nd], bbox[nd:], np.asarray(fill).astype(x0.numpy().dtype))
-        g = got if isinstance(got, np.ndarray) else got.numpy()
-        if g.shape != ref.shape or not np.array_equal(g, ref.astype(g.dtype)):
+        ref = _window_ref(x0n, bbox[:nd], bbox[nd:], np.asarray(fill).astype(x0n.dtype))
+        g = np.asarray(got) if is_np else got.numpy()
+        in_dtype = data.dtype if isinstance(data, np.ndarray) else ref.dtype
+        if g.shape != ref.shape or not np.array_equal(g.astype(ref.dtype), ref):
             bad("prim/crop_to_bbox/window", f"crop_to_bbox ({c.get('path', 'torch')} path, {c.get('dtype', 'float32')}, "
-                f"{c.get('layout', 'contiguous')}) differs from the addressed window with pad fill",
+                f"layout {lay}) differs from the addressed window of the logical array with pad fill",
                 expected=str(ref.tolist())[:400], observed=str(g.tolist())[:400])
-        elif g.dtype != ref.dtype:
+        elif g.dtype != in_dtype:
             bad("bbox-dtype-bool" if c.get("dtype") == "bool" else "prim/crop_to_bbox/dtype",
-                f"crop_to_bbox ({c.get('path', 'torch')} path) returns dtype {g.dtype} for {ref.dtype} input when the box leaves the data",
+                f"crop_to_bbox ({c.get('path', 'torch')} path, layout {lay}) returns dtype {g.dtype} for {in_dtype} input",
                 observed=str(g.dtype))
         if isinstance(got, torch.Tensor) and got.numel():
             before = xin.clone()
             got.zero_()
             if not _eq(xin, before):
                 bad("prim/crop_to_bbox/aliases-input", "the tensor returned by crop_to_bbox shares memory with its input")
+        if isinstance(got, np.ndarray) and got.size:
+            if np.shares_memory(got, data):
+                bad("prim/crop_to_bbox/aliases-input", f"the array returned by crop_to_bbox shares memory with its input (layout {lay})")
+            elif not got.flags.writeable:
+                bad("prim/crop_to_bbox/readonly-result", f"crop_to_bbox returns a read-only array (input layout {lay})")
+            elif not np.array_equal(np.asarray(data), keep_np):
+                bad("prim/crop_to_bbox/inplace", "crop_to_bbox modified its numpy input")
         return out
 
     if fn == "crop_to_largest":
         arrs = [_labels(s, c.get("dtype", "float32")) for s in c["shapes"]]
-        data = [a.numpy() for a in arrs] if c.get("path") == "numpy" else arrs
+        data = [_np_layout(a.numpy(), (c.get("np_layouts") or ["plain"] * len(arrs))[j]) for j, a in enumerate(arrs)] \
+            if c.get("path") == "numpy" else arrs
         fill = c.get("fill", 0)
         try:
             got = crop_to_largest(data, pad_value=fill)
@@ -234,8 +302,10 @@ def run_case(c: dict):
             x = _labels(shp, e.get("dtype", "float32"))
             if e.get("dtype") == "int64" and e.get("large"):
                 x = x + 2 ** 25 + 1                      # not representable in float32
-            x = _layout(x, e.get("layout", "contiguous"))
-            objs.append(x.numpy() if e.get("numpy") else x)
+            if e.get("numpy"):
+                objs.append(_np_layout(x.numpy(), e.get("np_layout", "plain")))
+            else:
+                objs.append(_layout(x, e.get("layout", "contiguous")))
             elems.append(e)
         keep = [o.copy() if isinstance(o, np.ndarray) else o.clone() for o in objs]
         st = np.random.get_state()
@@ -252,7 +322,7 @@ def run_case(c: dict):
             finally:
                 np.random.set_state(st)
 
-        got, err = run(list(objs))
+        got, err = run(list(objs) if not c.get("bare") else objs[0])
         if c.get("expect") == "raises":
             if err is None:
                 bad(f"prim/{target}/accepts-invalid", f"{target} accepts a list of tensors of different ranks / shapes")
@@ -277,7 +347,8 @@ def run_case(c: dict):
                     bad(f"prim/{target}/list-vs-single", f"{target} accepts element {j} inside a list but raises {err_name(e1)} on it alone")
                     continue
             what = None
-            if type(o) is not type(single):
+            kind = lambda v: "ndarray" if isinstance(v, (np.ndarray, np.generic)) else type(v).__name__   # noqa: E731 (subclasses welcome)
+            if kind(o) != kind(single):
                 what = f"type {type(o).__name__} instead of {type(single).__name__}"
             elif str(o.dtype) != str(single.dtype):
                 what = f"dtype {o.dtype} instead of {single.dtype}"
@@ -290,6 +361,22 @@ def run_case(c: dict):
                     f"alone returns ({what}); list = {[(e_.get('dtype', 'float32'), 'numpy' if e_.get('numpy') else 'torch') for e_ in elems]}",
                     element=j, observed=str(o.dtype), expected=str(single.dtype))
                 break
+        # layout independence: the same logical arrays in the plain layout give the same outputs
+        if any(e.get("np_layout", "plain") != "plain" or e.get("layout", "contiguous") != "contiguous" for e in elems):
+            plain = [np.ascontiguousarray(np.asarray(o)).astype(o.dtype.newbyteorder("=")) if isinstance(o, np.ndarray) else o.contiguous()
+                     for o in objs]
+            got_p, err_p = run(plain)
+            outs_p = [] if got_p is None else (got_p if isinstance(got_p, list) else [got_p])
+            if err_p is not None or len(outs_p) != len(outs):
+                bad(f"prim/{target}/layout-dependent", f"{target} handles the list in its given layouts but not in the plain layout")
+            else:
+                for j, (o, q) in enumerate(zip(outs, outs_p)):
+                    on, qn = np.asarray(o) if not isinstance(o, torch.Tensor) else o.numpy(), \
+                        np.asarray(q) if not isinstance(q, torch.Tensor) else q.numpy()
+                    if on.shape != qn.shape or on.dtype.newbyteorder("=") != qn.dtype.newbyteorder("=") or not np.array_equal(on, qn):
+                        bad(f"prim/{target}/layout-dependent", f"{target}: output {j} depends on the memory layout of the input "
+                            f"({elems[j].get('np_layout') or elems[j].get('layout')})", element=j)
+                        break
         # aliasing: overwriting one output changes neither another output nor an input
         snap = [o.copy() if isinstance(o, np.ndarray) else o.clone() for o in outs]
         for j, o in enumerate(outs):
@@ -456,6 +543,28 @@ def gen_cases(ctx: Ctx, deep: bool):
         yield {"fn": "crop_to_bbox", "shape": shp, "bbox": coords + size, "fill": rng.choice([0, 0, 1, 3] if dt != "bool" else [0, 1]),
                "dtype": dt, "path": rng.choice(["numpy", "torch"]), "layout": rng.choice(layouts[:4]),
                "form": rng.choice(["list", "tuple", "ndarray"])}
+    # numpy ladder: every layout x in-range / padded box, numpy-only dtypes, empty axes, 0-d
+    for lay in NP_LAYOUTS:
+        for bbox in ([1, 1, 2, 2], [-1, 2, 3, 4], [0, 0, 3, 4]):
+            yield {"fn": "crop_to_bbox", "shape": [3, 4], "bbox": bbox, "fill": 1, "dtype": rng.choice(["float32", "int64", "complex64"]),
+                   "path": "numpy", "np_layout": lay}
+    for _ in range(60 if not big else 800):
+        rank = rng.randint(1, 4)
+        shp = [rng.randint(0 if rng.random() < 0.08 else 1, 5) for _ in range(rank)]
+        coords = [rng.randint(-3, n + 1) for n in shp]
+        size = [rng.randint(0 if rng.random() < 0.1 else 1, n + 3) for n in shp]
+        dt = rng.choice(["float32", "float64", "int64", "int16", "uint8", "complex64", "bool", "uint16", "uint32", "longdouble"])
+        yield {"fn": "crop_to_bbox", "shape": shp, "bbox": coords + size, "fill": rng.choice([0, 1, 3] if dt != "bool" else [0, 1]),
+               "dtype": dt, "path": "numpy", "np_layout": rng.choice(NP_LAYOUTS), "form": rng.choice(["list", "tuple", "ndarray"])}
+    yield {"fn": "crop_to_bbox", "shape": [], "bbox": [], "dtype": "float64", "path": "numpy"}
+    # a single numpy array (not a list) through the complex crops, every layout
+    for lay in NP_LAYOUTS:
+        for target in ("complex_center_crop", "complex_random_crop"):
+            c = {"fn": "list_hetero", "target": target, "shape": [2, 5, 4, 2], "crop": [3, 2], "bare": True,
+                 "elems": [{"dtype": rng.choice(["float32", "float64"]), "numpy": True, "np_layout": lay}]}
+            if target == "complex_random_crop":
+                c["seed"] = 5
+            yield c
     yield {"fn": "crop_to_bbox", "shape": [4], "bbox": [-1, 3], "fill": 1, "dtype": "bool", "path": "torch"}    # defect of the pinned tree, once per run
     yield {"fn": "bbox_twin", "shape": [5, 2], "bbox": [13, 3, 2, 5], "fill": 0}                                   # defect of the pinned tree, once per run
     for _ in range(20 if not big else 200):
@@ -475,8 +584,9 @@ def gen_cases(ctx: Ctx, deep: bool):
             e = {"dtype": rng.choice(dts), "layout": rng.choice(layouts[:4])}
             if e["dtype"] == "int64" and rng.random() < 0.6:
                 e["large"] = True
-            if allow_numpy and rng.random() < 0.3 and e["dtype"] != "float16":
+            if allow_numpy and rng.random() < 0.4 and e["dtype"] != "float16":
                 e["numpy"] = True
+                e["np_layout"] = rng.choice(NP_LAYOUTS)
             es.append(e)
         return es
 
@@ -518,7 +628,8 @@ def gen_cases(ctx: Ctx, deep: bool):
     for _ in range(30 if not big else 300):
         rank = rng.randint(1, 3)
         yield {"fn": "crop_to_largest", "shapes": [shape(rank, 1, 5) for _ in range(rng.randint(1, 4))],
-               "fill": rng.choice([0, 0, 9]), "path": rng.choice(["numpy", "torch"]), "dtype": rng.choice(["float32", "int64"])}
+               "fill": rng.choice([0, 0, 9]), "path": rng.choice(["numpy", "torch"]), "dtype": rng.choice(["float32", "int64"]),
+               "np_layouts": [rng.choice(NP_LAYOUTS) for _ in range(4)]}
     yield {"fn": "crop_to_largest", "shapes": [[2, 3], [3, 3]], "fill": 0, "path": "torch"}                      # defect of the pinned tree, once per run
     yield {"fn": "crop_to_largest", "shapes": [], "fill": 0, "path": "torch"}
     # ---- complex_center_crop / complex_random_crop: every option
@@ -574,7 +685,7 @@ def _bucket(c):
     if c["fn"] == "center_crop":
         return b + "/" + c.get("layout", "contiguous") + "/" + c.get("form", "tuple")
     if c["fn"] == "crop_to_bbox":
-        return b + "/" + c.get("path", "torch") + "/" + c.get("dtype", "float32")
+        return b + "/" + c.get("path", "torch") + "/" + (c.get("np_layout") or c.get("dtype", "float32"))
     if c["fn"] == "crop_to_largest":
         return b + "/" + c.get("path", "torch")
     if c["fn"] == "list_hetero":
